@@ -462,6 +462,15 @@ theorem multi_columns_ok (yt yp : List Rat) (ms : List (MetricSpec γ)) :
     getCol (constructAll (baseData yt yp) ms).1 "y_pred" = yp :=
   constructAll_rel yt yp ms
 
+/- REVIEW R3 NOTE on the three theorems below (`multi_metric_own_params`, `multi_column_eq_single`, `single_eq_model`):
+   they carry no hypothesis on the LENGTHS of y_true / y_pred / the sample-parameter arrays and no hypothesis that the
+   row payloads are row numbers `< n`; slices are written `idx.map (fun j => v.getD j 0)`.  For a column shorter than
+   the data (real MetricFrame: ValueError) or a payload `>= n` (never built by `mkRows`) both sides of the equations pad
+   with 0, so the statements hold there for the wrong reason.  What they do NOT say — that on the inputs MetricFrame
+   accepts no default is ever read, and what each cell then is — is `multi_byGroup_exact` / `multi_overall_exact`
+   (section Review, stated with the default-free `sliceAt` under `ParamsFull` and the length hypotheses);
+   `short_param_padded_artifact` exhibits the padding. -/
+
 /-- Every metric of a dict is called, on every slice, with y_true / y_pred of the slice and EXACTLY
     ITS OWN non-None sample parameters, sliced the same way — whatever the other metrics, their
     parameters and all the names are. -/
